@@ -376,6 +376,11 @@ class PrettyPrinter:
         if isinstance(value, bool):
             return str(value).upper()
 
+        if "allOf" in attr_props and len(attr_props["allOf"]) == 1:
+            # a keyword that wraps its definition in allOf (to attach version metadata)
+            # is formatted like the definition it wraps
+            attr_props = attr_props["allOf"][0]
+
         if isinstance(value, dict):
             # composites and key-value blocks are printed elsewhere, so a dictionary
             # reaching this point (typically the empty one created by reading a
